@@ -841,3 +841,86 @@ Example C12_finding_nested_include :
   | Raise _ => False
   end.
 Proof. vm_compute. repeat split; reflexivity. Qed.
+
+(* ================================================================================================== *)
+(* added from Properties/C12_add.v (2026-10-01, pj_c02c)  *)
+(* ================================================================================================== *)
+(* C12 (addition): in either mode the non-comment data is identical -- arbitrary layouts, comments at statement boundaries. *)
+From Coq Require Import String.   (* string literals of the examples; imported first so the list names win *)
+From Coq Require Import NArith ZArith List Bool.
+From DictIO Require Import Chars Str Value Scalar KeyPath SDict Lexer TokParser TreeSpec NativeSpec LayoutSpec E2ESpec LayoutProofs.
+From DictIO Require Import E2EHoles E2EFullProofs AnyLayoutProofs AnyLayoutComments.
+From DictIO Require Import RereadTree RereadLex RereadNum RereadProofs AnyLayoutCommentsOn.
+Import ListNotations.
+
+(* One text Tc, read twice.  Vocabulary as in C02_parse_commented_on (comments = true: the document c with its comments
+   at statement boundaries, T1 = flat all_kept p0 cps the text with the line comment placeholders, flatD (bc_tab c) p0 cps
+   a layout of the placeholder document's tokens) and in C02_parse_commented (comments = false: flat all_kept p0' cps' the
+   text without its line comments, flat none_kept p0' cps' a layout of the tree's tokens).  Then both readings succeed, the
+   reading with comments off returns no comment entry at any depth, and the ordinary data of the reading with comments on
+   (every entry whose key is a comment placeholder dropped, at every depth) IS the data of the reading with comments off:
+   the tree, leaves as the classifier reads them. *)
+Theorem C12_data_same_in_either_mode : forall c kvs fs txt w1 w2 Tc p0 cps txt' w1' w2' p0' cps' dirc count,
+  cdoc_any c = true -> cstrip (Dict c) = Dict kvs -> Forall2 spelling fs (qstrs (Dict kvs)) -> (-1 <= count)%Z ->
+  (Z.of_nat (length (lc_list c)) <= 1000000)%Z -> (Z.of_nat (length (bc_list c)) <= 1000000)%Z ->
+  (Z.of_nat (nq (Dict kvs)) <= 1000000)%Z ->
+  (* comments on *)
+  lcn true (ids count (length (lc_list c))) (lc_list c) Tc (flat all_kept p0 cps) ->
+  nopair c_slash c_slash (flat all_kept p0 cps) = true -> hash_safe false (flat all_kept p0 cps) = true ->
+  plain_in p0 = true -> forallb seg_ok cps = true ->
+  map (fun cp => bcomment (fst cp)) cps = bc_list c ->
+  flatD (bc_tab c) p0 cps = w1 ++ txt ++ w2 ->
+  rendering (cdoc_toks fs (ph_doc count c)) txt -> ws_run w1 -> ws_run w2 ->
+  (* comments off *)
+  lcm true Tc (flat all_kept p0' cps') ->
+  nopair c_slash c_slash (flat all_kept p0' cps') = true -> hash_safe false (flat all_kept p0' cps') = true ->
+  plain_in p0' = true -> forallb seg_ok cps' = true ->
+  flat none_kept p0' cps' = w1' ++ txt' ++ w2' ->
+  rendering (doc_toks fs kvs) txt' -> ws_run w1' -> ws_run w2' ->
+  exists p_on p_off,
+    parse_string true dirc count Tc = Ok p_on /\ parse_string false dirc count Tc = Ok p_off /\
+    cstrip (Dict (sd_data (pr_sd p_on))) = Dict (sd_data (pr_sd p_off)) /\
+    cms (Dict (sd_data (pr_sd p_off))) = [] /\
+    Dict (sd_data (pr_sd p_off)) = map_leaves written_value (Dict kvs).
+Proof. exact data_same_in_either_mode. Qed.
+Print Assumptions C12_data_same_in_either_mode.
+
+(* non-vacuity: the commented document of C02_parse_commented_on_nonvacuous (AnyLayoutCommentsOn, section E: nested dicts,
+   a list, line comments on a line of their own and at line ends -- one in front of a CR LF --, block comments before a
+   statement, behind a closing brace, inside a nested dict), both sets of hypotheses, counter 5 *)
+Example C12_data_same_in_either_mode_nonvacuous :
+  cdoc_any ex_on_doc = true /\ cstrip (Dict ex_on_doc) = Dict ex_on_tree /\
+  lcn true (ids 5 (length (lc_list ex_on_doc))) (lc_list ex_on_doc) ex_on_Tc (flat all_kept ex_on_p0 ex_on_cps) /\
+  rendering (cdoc_toks ex_on_fs (ph_doc 5 ex_on_doc)) ex_on_txt /\
+  lcm true ex_on_Tc (flat all_kept ex_on_p0 ex_off_cps) /\ rendering (doc_toks ex_on_fs ex_on_tree) ex_off_txt /\
+  exists p_on p_off,
+    parse_string true [] 5 ex_on_Tc = Ok p_on /\ parse_string false [] 5 ex_on_Tc = Ok p_off /\
+    cstrip (Dict (sd_data (pr_sd p_on))) = Dict (sd_data (pr_sd p_off)) /\
+    cms (Dict (sd_data (pr_sd p_off))) = [] /\ sd_data (pr_sd p_off) = ex_on_tree.
+Proof.
+  destruct ex_on_facts as (Hc & Ek & Hsp & HL & Hnp & Hhs & Hp0 & Hcps & Hbc & HT & HR).
+  destruct ex_off_facts as (HL' & Hnp' & Hhs' & Hcps' & HT' & HR').
+  assert (H1 : ws_run [c_lf]) by (repeat (constructor; [reflexivity|]); constructor).
+  assert (H3 : ws_run [c_lf; c_lf; c_lf]) by (repeat (constructor; [reflexivity|]); constructor).
+  assert (H4 : ws_run [c_sp; c_lf]) by (repeat (constructor; [reflexivity|]); constructor).
+  assert (N1 : (Z.of_nat (length (lc_list ex_on_doc)) <= 1000000)%Z) by (vm_compute; discriminate).
+  assert (N2 : (Z.of_nat (length (bc_list ex_on_doc)) <= 1000000)%Z) by (vm_compute; discriminate).
+  assert (N4 : (Z.of_nat (nq (Dict ex_on_tree)) <= 1000000)%Z) by (vm_compute; discriminate).
+  refine (conj Hc (conj Ek (conj HL (conj HR (conj HL' (conj HR' _)))))).
+  destruct (C12_data_same_in_either_mode ex_on_doc ex_on_tree ex_on_fs ex_on_txt _ _ ex_on_Tc ex_on_p0 ex_on_cps ex_off_txt _ _
+              ex_on_p0 ex_off_cps [] 5%Z Hc Ek Hsp ltac:(discriminate) N1 N2 N4 HL Hnp Hhs Hp0 Hcps Hbc HT HR H1 H1
+              HL' Hnp' Hhs' Hp0 Hcps' HT' HR' H3 H4) as (p_on & p_off & A & B & C & D & E).
+  exists p_on, p_off. refine (conj A (conj B (conj C (conj D _)))).
+  assert (Ew : map_leaves written_value (Dict ex_on_tree) = Dict ex_on_tree) by (vm_compute; reflexivity).
+  rewrite Ew in E. injection E as E. exact E.
+Qed.
+
+(* the class cannot be widened to comments between a key and its value: there the two modes disagree -- with comments on
+   the entry is lost (confirmed on the library: NativeParser().parse_string("a /* c */ 1; b 2;", SDict(), comments=True)
+   returns {BLOCKCOMMENT000000: ..., b: 2}, with comments=False {a: 1, b: 2}) *)
+Example C12_modes_differ_finding :
+  match parse_string true [] 0 (of_string "a /* c */ 1; b 2;"), parse_string false [] 0 (of_string "a /* c */ 1; b 2;") with
+  | Ok p, Ok q => cstrip (Dict (sd_data (pr_sd p))) = Dict [kv_b2] /\ sd_data (pr_sd q) = [kv_a1; kv_b2]
+  | _, _ => False
+  end.
+Proof. vm_compute. split; reflexivity. Qed.
